@@ -288,9 +288,9 @@ func c16r1(c *core.Ctx) {
 func c16r2(c *core.Ctx) {
 	m := c.M
 	c05r4(c)
-	f := m.FuncNamed("observerManager.Reset")
+	f := resetFuncOf(c, "observerManager")
 	if f == nil {
-		c.Undecide("C16/R2", "anchor", "observerManager.Reset not found")
+		c.Undecide("C16/R2", "anchor", "reset function of observerManager not found on the chain from World.Reset")
 		return
 	}
 	// outer loop over event types, inner loop over m.observers[i] storing the unregistered marker into o.id
@@ -447,7 +447,7 @@ func c16r3(c *core.Ctx) {
 
 func c16r4(c *core.Ctx) {
 	m := c.M
-	f := m.FuncNamed("archetype.Reset")
+	f := resetFuncOf(c, "archetype")
 	tr := GetTableRoles(c)
 	if f == nil || tr.Reset == nil {
 		c.Undecide("C16/R4", "anchor", "archetype.Reset / table reset role not found")
@@ -517,4 +517,35 @@ func c16r5(c *core.Ctx) {
 		w := res.Unguarded[f][0]
 		c.Violation("C16/R5", f.Name, c.At(w.Node.Pos()), fmt.Sprintf("World.Reset reaches a store at %s before testing the world lock", c.At(w.Deep.Pos())))
 	}
+}
+
+// resetFuncOf returns the function through which the reset chain starting at World.Reset resets values of the given type.
+func resetFuncOf(c *core.Ctx, typ string) *core.Func {
+	m := c.M
+	root := m.FuncNamed("World.Reset")
+	if root == nil {
+		return nil
+	}
+	seen := map[*core.Func]bool{}
+	var found *core.Func
+	var visit func(f *core.Func, depth int)
+	visit = func(f *core.Func, depth int) {
+		if seen[f] || depth > 6 || found != nil {
+			return
+		}
+		seen[f] = true
+		core.InspectNoLits(f.Body, func(n ast.Node) bool {
+			if call, ok := n.(*ast.CallExpr); ok {
+				if k, cal, _ := m.Callee(call); k == core.CallStatic && cal.Sig != nil && cal.Sig.Results().Len() == 0 {
+					if cal.Recv == typ && found == nil {
+						found = cal
+					}
+					visit(cal, depth+1)
+				}
+			}
+			return true
+		})
+	}
+	visit(root, 0)
+	return found
 }
